@@ -170,6 +170,14 @@ def run(ctx):
     ctx.check("per-worker-behaviour", "one-response-per-request-structure(C09)", not bad, "every worker answers each accepted request exactly once (C09 structure rules hold: %d instances)" % len(sub.instances),
               "a worker does not answer every accepted request exactly once: " + (bad[0]["detail"] if bad else ""), bad[0].get("loc") if bad else None)
 
+    # "no worker dies": the panic obligations of the serving code (C08's analysis, same roots and audited sites) are obligations of C18 too
+    c8 = importlib.import_module("rules.C08")
+    sub8 = Ctx("C08", P, ctx.repo, "quick", ctx.feature)
+    c8.run(sub8)
+    bad8 = [i for i in sub8.instances if not i["ok"]]
+    ctx.check("per-worker-behaviour", "no-worker-dies(C08)", not bad8, "no reachable panic in a worker's serving code (C08 no-panic obligations hold: %d instances)" % len(sub8.instances),
+              "a worker thread can die: " + (bad8[0]["detail"] if bad8 else ""), bad8[0].get("loc") if bad8 else None)
+
     # thorough: compile-fail witness
     if ctx.tier == "thorough" and ctx.feature == "default":
         import witness
